@@ -21,7 +21,7 @@ RULE = (
     "keep_imports and safe+keep_imports+preserve must return the identical string; for the first / middle / last line also format_file (no write-mode open, "
     "bytes unchanged, falsy result) and main(['--from-stdin']) (prints the text plus the one newline print adds). "
     "(b) ignore: every atom program x every physical line of the atom (thorough: every line of the program, all four "
-    "contexts) on which a trailing comment is lexically a comment and does not change the tree, annotated with "
+    "contexts; plus the last line of the atom when the atom ends the file, with and without trailing newline) on which a trailing comment is lexically a comment and does not change the tree, annotated with "
     "'# pyrefact: ignore <tag>' x {each of the 86 rules, format_code}; oracle: the annotated line - indentation, code "
     "and comment, byte for byte - is a line of the output. non-trivial = (a) the un-annotated input would have been "
     "changed / (b) the un-annotated line would not have survived the same entry point"
@@ -179,12 +179,20 @@ def annotate_lines(src, first_row, last_row):
         yield row, new_src, new_line
 
 
-def check_ignore(atom, ctx, tier, only=None):
+def check_ignore(atom, ctx, tier, only=None, tail="epilogue"):
     res = {"n": 0, "nontrivial": [], "viol": [], "stats": {}, "samples": []}
     st = res["stats"]
-    src = progs.build([atom], ctx)
+    if tail == "epilogue":
+        src = progs.build([atom], ctx)
+    else:
+        # the atom is the last thing in the file, so that the annotated line is the LAST line of the source
+        src = progs.PRELUDE + progs.ATOMS[atom]["code"]
+        if tail == "atom_last_nonl":
+            src = src.rstrip("\n")
     lines = src.splitlines()
-    if tier == "thorough":
+    if tail != "epilogue":
+        first = last = len(lines)
+    elif tier == "thorough":
         first, last = 1, len(lines)
     else:
         pre = len(progs.PRELUDE.splitlines())
@@ -202,6 +210,8 @@ def check_ignore(atom, ctx, tier, only=None):
     for row, new_src, new_line in annotate_lines(src, first, last):
         for entry in entries:
             desc = {"atom": atom, "ctx": ctx, "row": row, "entry": entry}
+            if tail != "epilogue":
+                desc["tail"] = tail
             if only and desc != only:
                 continue
             res["n"] += 1
@@ -237,14 +247,23 @@ def run_unit(unit):
     tier = os.environ.get("MC_TIER", "quick")
     if unit["t"] == "skip":
         return check_skip(unit["ref"])
-    return check_ignore(unit["atom"], unit["ctx"], tier)
+    res = check_ignore(unit["atom"], unit["ctx"], tier)
+    if unit["ctx"] == "module":
+        for tail in ("atom_last", "atom_last_nonl"):
+            r = check_ignore(unit["atom"], "module", tier, tail=tail)
+            res["n"] += r["n"]
+            res["nontrivial"] += r["nontrivial"]
+            res["viol"] += r["viol"]
+            for k, v in r["stats"].items():
+                res["stats"][k] = res["stats"].get(k, 0) + v
+    return res
 
 
 def replay(desc):
     progs.worker_setup()
     if "variant" in desc:
         return check_skip(desc["ref"], only=desc)["viol"]
-    return check_ignore(desc["atom"], desc["ctx"], "thorough", only=desc)["viol"]
+    return check_ignore(desc["atom"], desc["ctx"], "thorough", only=desc, tail=desc.get("tail", "epilogue"))["viol"]
 
 
 def explain(desc):
